@@ -5,6 +5,15 @@ import "fmt"
 func registry() []PropSpec {
 	return []PropSpec{
 		{
+			ID: "C12",
+			Quick: []HarnessSpec{
+				{Pkg: pkgRefServer, Func: "H12a_q", Unwind: 40, TimeoutMs: 60000, Solvers: []string{"z3-new", "cvc5-int"}, Split: []SplitDim{{"grpc", 0, 1}, {"nd", 1, 11}, {"unit", 0, 6}}, CaseNote: "case split: protocol, number of digits (1..11 / 1..9) and unit letter (H M S m u n, or an invalid letter); every digit is symbolic (no redundant leading zero)", Note: "extractTimeout on Connect-Timeout-Ms / Grpc-Timeout values"},
+				{Pkg: pkgRefServer, Func: "H12b_q", Unwind: 40, Note: "checkHTTPVersion/Protocol/Codec/Compression/TLS on the request of a conformant client: full matrix expected x actual of 3 HTTP versions, GET/POST, 3 protocols (unary/stream content types, bare or +codec), 2 codecs, 6 compressions (identity explicit or omitted), TLS on/off, client certificate none/a/b"},
+			},
+			Stubs: []string{"int64(Duration.Hours/Minutes/Seconds()) summarised as q-1..q+1 (q exact when the remainder is 0), justified by the floating-point lemma of DESIGN.md section 4", "http.Header / url.Values accessed with canonical keys (map models)", "enum descriptors reduced to 'number is a declared value'", "printer = recording stub"},
+			Out:   []string{"net/http request parsing", "the middleware closure (duplicate-request counter, trailers, missing test name) is not encoded yet"},
+		},
+		{
 			ID: "C19",
 			Quick: []HarnessSpec{
 				{Pkg: pkgCC, Func: "H19a_q", Unwind: 6, AbstractBig: true, Solvers: []string{"z3-new"}, TimeoutMs: 300000, Note: "expandRequestData on one request: size of the other fields 0..40, initial padding length any value < 2^22, offset any int32, padding field present or not"},
